@@ -75,7 +75,7 @@ def entry_state(ex: Exec, c: Contract, fnnode) -> State:
         if t.sort() == Addr:
             st.assume(z3.And(t >= 0, t < h0.alloc))
     ex.h0 = h0
-    for f in heap_closed(h0):
+    for f in heap_closed(h0) + list_axioms(h0):
         st.assume(f)
     pre = CCtx(h0, h0, ex.args, ex.ghosts)
     for (nm, f) in c.requires(pre):
@@ -104,6 +104,7 @@ def verify_function(reg: Registry, c: Contract) -> FnReport:
         h0 = ex.h0
         for idx, x in enumerate(ex.exits):
             stx = x.state
+            named_heap(stx)
             # vacuity canary: the path condition of every exit must be satisfiable (this goal must NOT be provable)
             if x.kind == 'return':
                 ex.obligations.append(Obligation(fs.key + '/canary@exit%d' % idx, list(stx.pc), z3.BoolVal(False), 'canary', fs.key))
